@@ -253,6 +253,16 @@ def gen_items(tier, seed, lfactor=3):
             name = nm()
             items.append(Item(name, "arr_repeat_type_expression", {"T": tk, "N": n, "type": texpr},
                               f"    let a: GenericArray<{ty}, {texpr}> = arr![{lit(x)}; {texpr}];\n    sum!(h, a.as_slice(), {vf});", psum(7, [x] * n, enc)))
+    # the (doc-hidden, public) by-value reinterpretation helper with a target that is more strictly aligned than the source
+    for kk, (src_ty, dst_ty, lit, rd, val) in enumerate([
+        ("[u8; 4]", "u32", "[1, 2, 3, 4]", "v as u64", 0x04030201),
+        ("[u8; 8]", "u64", "[1, 2, 3, 4, 5, 6, 7, 8]", "v", 0x0807060504030201),
+        ("GenericArray<u8, U8>", "[u32; 2]", "GenericArray::from_array([1u8, 2, 3, 4, 5, 6, 7, 8])", "(v[0] as u64) << 32 | v[1] as u64", (0x04030201 << 32) | 0x08070605),
+        ("[u16; 2]", "GenericArray<u8, U4>", "[0x0201u16, 0x0403]", "{ let s = v.as_slice(); (s[0] as u64) << 8 | s[3] as u64 }", (1 << 8) | 4),
+    ]):
+        name = nm()
+        items.append(Item(name, "const_transmute_realign", {"T": "bytes", "N": 4 + kk, "from": src_ty, "to": dst_ty},
+                          f"    let v: {dst_ty} = unsafe {{ generic_array::const_transmute::<{src_ty}, {dst_ty}>({lit}) }};\n    h = mix(h, {rd});", mix(7, val)))
     # very long arrays in const position: the expansion must not cost the const evaluator a step per element (only three
     # elements are read here for the same reason)
     for tk, n, nty in [("u8", 1 << 20, "U1048576"), ("unit", 1 << 20, "U1048576"), ("u32", 1 << 19, "U524288"), ("pair", 1 << 19, "Prod<U1024, U512>")]:
